@@ -10,7 +10,7 @@ from fractions import Fraction as F
 import numpy as np
 
 from symgem import core, fp, pool
-from symgem.core import assume, conj, event, ite, prove, prove_isolated, sample, sfloor_int, sym_real
+from symgem.core import assume, conj, event, ite, prove, prove_isolated, sample, sfloor_int, sym_int, sym_real
 from symgem.runner import symbolic_job
 from symgem.symnp import Patches, S
 
@@ -18,10 +18,10 @@ PROPERTY = 'C08'
 
 BOUNDS = {
     'quick': 'REAL mode: k<=2 samples with coordinates any reals in [0,1) on ortho457 with resolutions {4, 2.5, 2, 1.7} (grids up to 2x2x4); '
-             'edge-length bound for 9 resolutions x 3 lattices and for every (symbolic) resolution in (L/8, L] on ortho457 [+ tric, hex558 thorough]; FP mode (binary64): voxel round trip for every grid size 1<=n<=63 and every 0<=v<n (cvc5)',
+             'edge-length bound for 9 resolutions x 3 lattices and for every (symbolic) resolution in (L/8, L] on ortho457 [+ tric, hex558 thorough]; FP mode (binary64): voxel round trip for every grid size 1<=n<=63 and every 0<=v<n (cvc5); count_width: one voxel collecting any number c <= 2^21 [2^23 thorough] of samples through the counter array GEMDAT allocates (machine dtype modelled with wrap-around casts)',
     'thorough': 'k<=3 samples, grids up to 3x4x5 incl. triclinic lattice lengths; FP round trip for every n<=511 (cvc5, 8 ranges of n)',
 }
-OUTSIDE = ['grids / sample counts above the bound', 'binary64 rounding of the bin edges np.linspace produces (REAL mode uses exact k/n edges)',
+OUTSIDE = ['grids / sample counts above the bound', 'per-voxel counts above 2^21 [2^23] (a replay needs that many frames)', 'binary64 rounding of the bin edges np.linspace produces (REAL mode uses exact k/n edges)',
            'voxel round trip for n > 511 (cvc5 needs > 10 min per 256-wide range beyond)']
 ASSUMPTIONS = [
     'positions handed to trajectory_to_volume lie in [0,1) (C01)',
@@ -104,6 +104,84 @@ def density_job_replay(params, inputs):
         exp[idx] += 1
     if vol.data.sum() != k or not (vol.data == exp).all():
         return False, f'volume {vol.data.tolist()} != floor-binned counts {exp.tolist()} for x={x.tolist()} grid={n}'
+    return True, 'ok'
+
+
+class _Stored(np.ndarray):
+    """Object array standing for an ndarray of a fixed machine dtype: writes go through the dtype's cast (integers wrap)."""
+    _store_dtype = None
+
+    def __setitem__(self, key, value):
+        dt = self._store_dtype
+        vals = np.asarray(value, dtype=object)
+        out = np.empty(vals.shape, dtype=object)
+        for ix in np.ndindex(vals.shape):
+            v = vals[ix]
+            if dt.kind == 'u':
+                v = v % (2 ** (8 * dt.itemsize))
+            elif dt.kind == 'i':
+                h = 2 ** (8 * dt.itemsize - 1)
+                v = (v + h) % (2 * h) - h
+            elif dt.kind == 'f' and dt.itemsize >= 8:
+                pass  # binary64 holds every integer below 2**53 exactly (counts are bounded far below)
+            else:
+                raise core.Inconclusive(f'storage dtype {dt} not modelled')
+            out[ix] = v
+        np.ndarray.__setitem__(self, key, out if out.shape else out[()])
+
+
+def count_width_job(params):
+    """The per-voxel counter holds every count up to the bound: the count produced by np.unique is a symbolic integer and the
+    array GEMDAT allocates for the volume is modelled with the wrap-around cast of the dtype it asks for."""
+    lat, res, cmax = params['lattice'], params['resolution'], params['cmax']
+    M = pool.lattice_matrices()[lat]
+
+    def body():
+        import gemdat.volume as gv
+        c = sym_int('c', 1, cmax)
+        seen = {}
+
+        def zeros(shape, dtype=float, **k):
+            a = np.zeros(shape, dtype=object).view(_Stored)
+            a._store_dtype = np.dtype(dtype)
+            seen['dtype'] = str(np.dtype(dtype))
+            return a
+
+        def unique(ar, *a, **k):
+            r = np.unique(np.asarray(ar).astype(int), *a, **k)  # concrete sample: plain integers
+            if not k.get('return_counts'):
+                return r
+            vals, counts = r
+            if len(counts) != 1:
+                raise core.Inconclusive('count_width_job expects one occupied voxel')
+            return vals, S([c])  # c identical samples instead of one
+
+        with Patches() as p:
+            p.np(gv, extra=dict(zeros=zeros, unique=unique))
+            x = np.array([[[0.3, 0.3, 0.3]]])
+            try:
+                vol = gv.trajectory_to_volume(_FakeTraj(x, M), resolution=res)
+            except Exception as e:
+                event(f'exception:{type(e).__name__}', detail=str(e)[:200])
+                return
+            data = np.asarray(vol.data, dtype=object)
+            prove('voxel sum = frames x atoms when one voxel collects c samples (counter does not wrap)',
+                  core.ssum(data.ravel().tolist()) == c)
+            sample(dict(lattice=lat, resolution=res, counter_dtype=seen.get('dtype')))
+
+    return symbolic_job(params, body, count_width_job_replay)
+
+
+def count_width_job_replay(params, inputs):
+    import gemdat.volume as gv
+    lat, res = params['lattice'], params['resolution']
+    M = pool.lattice_matrices()[lat]
+    c = int(inputs.get('c', 1))
+    x = np.full((c, 1, 3), 0.3)
+    vol = gv.trajectory_to_volume(_FakeTraj(x, M), resolution=res)
+    tot = int(np.asarray(vol.data).sum(dtype=object)) if vol.data.dtype == object else int(vol.data.astype(np.int64).sum())
+    if tot != c:
+        return False, f'{c} frames of one atom at (0.3,0.3,0.3): voxel sum {tot} != {c} (counter dtype {vol.data.dtype})'
     return True, 'ok'
 
 
@@ -212,7 +290,7 @@ def roundtrip_job_replay(params, inputs):
     return int(back[0]) == v, f'n={n} v={v}: round trip gives {int(back[0])}'
 
 
-REPLAYS = dict(density_job=density_job_replay, roundtrip_job=roundtrip_job_replay, resolution_job=resolution_job_replay)
+REPLAYS = dict(count_width_job=count_width_job_replay, density_job=density_job_replay, roundtrip_job=roundtrip_job_replay, resolution_job=resolution_job_replay)
 
 
 def jobs(tier, seed):
@@ -229,6 +307,7 @@ def jobs(tier, seed):
                    params=dict(lattices=['ortho457', 'tric', 'hex558'], resolutions=[0.2, 0.3, 0.7, 1.0, 1.3, 1.7, 2.0, 2.5, 3.9])))
     for lat in (['ortho457'] if tier == 'quick' else ['ortho457', 'tric', 'hex558']):
         js.append(dict(name=f'resolution_symbolic_{lat}', fn='resolution_job', params=dict(lattice=lat)))
+    js.append(dict(name='count_width', fn='count_width_job', params=dict(lattice='ortho457', resolution=2.0, cmax=2 ** 21 if tier == 'quick' else 2 ** 23)))
     for lo, hi in rt:
         js.append(dict(name=f'roundtrip_n{lo}_{hi}', fn='roundtrip_job', params=dict(n_lo=lo, n_hi=hi)))
     return js
